@@ -2,7 +2,7 @@ CONSTANTS
   MaxAlign = 16
   Sizes = {0, 1, 2, 3, 8, 24, 64}
   Aligns = {1, 2, 4, 8, 16}
-  Caps = {0, 4, 16}
+  Caps = {0, 16}
   MaxAllocs = 4
   Repaired = TRUE
 SPECIFICATION Spec
